@@ -477,7 +477,8 @@ class C09(Prop):
             "material curve values).  Correspondence: model (Float) vs real code, "
             "bit-exact for constants, P_RAM rows, table look-ups and the exact (dyadic) damage tables, relative 1e-11 where "
             "pow/log are involved.  Oracle: the property's relations on the real code (round trips, monotonicity, limits at the "
-            "knees, sqrt formula with guideline constants, literal damage accumulation, erfc residual of beta, guideline gamma_L "
+            "knees, sqrt formula with guideline constants, literal damage accumulation, erfc residual of beta, scalar return of "
+            "compute_beta for a float / numpy scalar / one-element array, list and Series with the same value, guideline gamma_L "
             "formulas).  Non-trivial = every case (distinct cases counted)")
     ASSUMPTIONS = [
         "C09: theorems are over the reals (Real.rpow, Real.sqrt); IEEE rounding of np.power / division is not modelled, the "
@@ -507,7 +508,12 @@ class C09(Prop):
         "tables whose prefix sums come closer than 1e-9 to one without being exactly representable ties are compared without the index",
         "C09: P_RAM: strain amplitude and E non-negative (numpy sqrt of a negative product under a non-negative factor is NaN)",
         "C09: compute_beta is sampled for P_A in [1e-100, 0.5] (denser towards 0.5, where the root search of the code before /repo "
-        "commit 763ab65 failed for about 1 % of the values in (0.48, 0.5)); the model is the REPAIRED behaviour (the quantile itself)",
+        "commit 763ab65 failed for about 1 % of the values in (0.48, 0.5)); the model is the REPAIRED behaviour (the quantile itself).  "
+        "The VALUE is compared with the model for a Python float argument only (the harness wraps the result in float()); the RETURN "
+        "TYPE is observed by the oracle only (/repo commit 007797f): compute_beta(float), (np.float64), (np.array([p])), ([p]) and "
+        "(pd.Series([p])) must all return a scalar (np.ndim == 0) with the same value bit for bit (failure class "
+        "compute-beta-array-return).  Array-likes with more than one element are outside the property (the code evaluates their "
+        "first element only) and are not generated",
         "C09: of constants.py only the keys C09 reads are tied to the model and the guideline here (E, a_M, b_M, d_1, d_2, "
         "a/b_PZ/PD_RAM, d_RAJ, a/b_PZ/PD_RAJ): correspondence, Bridge.constants_eq_c09, C09.constants_eq_guideline, oracle and the "
         "published material-curve literals of the corpus; the rest of the table (k_st, a_RP, f_25..., read by the assessment) is "
@@ -1162,6 +1168,21 @@ class C09(Prop):
             return (f"compute_beta({PA!r}) = {b!r} but Phi(-beta) = {got!r}", "beta-quantile")
         if PA <= 0.5 and b < -1e-9:
             return (f"compute_beta({PA!r}) = {b!r} negative", "beta-quantile")
+        # the RETURN TYPE (/repo commit 007797f): a float, a numpy scalar and every one-element array-like give a scalar
+        # (np.ndim == 0, as the root search of the original code did) with the value of the float call
+        for name, arg in (("float", float(PA)), ("np.float64", np.float64(PA)), ("np.array([p])", np.array([PA])), ("[p]", [PA]),
+                          ("pd.Series([p])", pd.Series([PA]))):
+            self._count("beta_return_type_calls")
+            try:
+                r = pc.compute_beta(arg)
+            except Exception as e:     # noqa: BLE001  (the kind of exception is the observable)
+                return (f"compute_beta({name}) with p = {PA!r} raises {type(e).__name__}: {str(e)[:100]}; the float call returns {b!r}",
+                        "compute-beta-array-return")
+            if np.ndim(r) != 0:
+                return (f"compute_beta({name}) with p = {PA!r} returns {r!r} ({type(r).__name__}, ndim {np.ndim(r)}), not a scalar; "
+                        f"the float call returns {b!r}", "compute-beta-array-return")
+            if float(r) != b:
+                return (f"compute_beta({name}) with p = {PA!r} returns {float(r)!r}, the float call {b!r}", "compute-beta-array-return")
         return None
 
     def _oracle_gamma(self, case):
